@@ -474,9 +474,7 @@ func (self *Analyzer) importItem(node pAst.ImportStatement) ast.AnalyzedImport {
 						item.Span,
 					)
 
-					if _, prevFound := self.currentModule.addTrigger(item.Ident, trigg); prevFound {
-						self.error(fmt.Sprintf("Trigger '%s' already exists in current scope", item.Ident), nil, item.Span)
-					}
+					// Nothing is registered: an empty trigger function (without types) must not reach its users.
 					continue
 				}
 
